@@ -66,7 +66,7 @@ def run_item(acc, item):
     k = item["kind"]
     acc.evaluations += 1
     acc.checks += 1
-    acc.nontrivial.add(stable_hash(item))
+    acc.nontrivial.add(stable_hash({k_: v_ for k_, v_ in item.items() if k_ != "seq"}))
     if k == "name":
         name, dec = item["name"], item["dec"]
         try:
@@ -359,8 +359,13 @@ def run_shard(spec):
     acc = Acc()
     if spec["mode"] == "exhaustive":
         items = exhaustive_items()
-        for it in items:
-            run_item(acc, it)
+        for pos, it in enumerate(items):
+            run_item(acc, dict(it, seq=["natural", pos]))
+        # ... and once more in a shuffled order: a verdict must not depend on which definitions the process has seen before
+        oseed = spec["seed"] % 100000
+        for pos, it in enumerate(_shuffled(items, oseed)):
+            run_item(acc, dict(it, seq=[oseed, pos]))
+        acc.ev("definition-items-repeated-in-shuffled-order", len(items))
         acc.extra["exhaustive"] = True
         acc.extra["exhaustive_space"] = f"{len(items)} definition items: every name in dir(StateMachine) x 3 decorators, illegal and legal signatures, aliasing, non-StateMachine owners"
         acc.samples.extend(items[:2] + [i for i in items if i["kind"] == "sig"][:2])
@@ -373,10 +378,32 @@ def run_shard(spec):
     return acc.result()
 
 
+def _shuffled(items, oseed):
+    out = list(items)
+    random.Random(oseed).shuffle(out)
+    return out
+
+
 def replay(pid, case):
     acc = Acc()
     if case.get("mode") == "hier":
         run_hier(acc, case, "replayh")
-    else:
-        run_item(acc, case)
-    return acc.violations[0] if acc.violations else None
+        return acc.violations[0] if acc.violations else None
+    run_item(acc, case)
+    if acc.violations or "seq" not in case:
+        return acc.violations[0] if acc.violations else None
+    # not reproducible alone: repeat it behind the definitions that preceded it in its shard
+    how, pos = case["seq"]
+    items = exhaustive_items()
+    if how != "natural":
+        items = _shuffled(items, how)
+    scratch = Acc()
+    for it in items[:pos]:
+        run_item(scratch, it)
+    acc = Acc()
+    run_item(acc, case)
+    if acc.violations:
+        v = acc.violations[0]
+        v["detail"] = dict(v.get("detail") or {}, needs_history=f"only after the {pos} definitions that precede it ({how} order)")
+        return v
+    return None
